@@ -42,9 +42,13 @@ def classify(name):
             "inner_ws": " " in name.strip()}
 
 
-def scenario(name, depth, fallback):
+NATIVE = {"latin-1": ["café", "å b", "ÿ", "é; x", 'é"é'], "cp1251": ["Привет", "мир; Type=dir", "отчёт №1", 'я"я'],
+          "utf-16-le-is-not-a-line-protocol": []}
+
+
+def scenario(name, depth, fallback, encoding="utf-8"):
     """returns list of problems"""
-    rig = Rig(tree={"p": {}}, server_kwargs={"block_size": 5})
+    rig = Rig(tree={"p": {}}, server_kwargs={"block_size": 5, "encoding": encoding})
     w = rig.world
     a = w.aioftp
     if fallback:
@@ -63,7 +67,7 @@ def scenario(name, depth, fallback):
         return True
 
     async def main():
-        c = a.Client(path_io_factory=a.MemoryPathIO)
+        c = a.Client(path_io_factory=a.MemoryPathIO, encoding=encoding)
         await c.connect("127.0.0.1", 2121)
         await c.login()
         base = {"/p": None}
@@ -156,23 +160,24 @@ def scenario(name, depth, fallback):
 
 
 def work(item):
-    ns, depth, fallback = item
+    ns, depth, fallback = item[:3]
+    encoding = item[3] if len(item) > 3 else "utf-8"
     part = report.Partial()
     for name in ns:
-        problems, nev = scenario(name, depth, fallback)
+        problems, nev = scenario(name, depth, fallback, encoding)
         part.evaluations += 1
         part.traces += 1
         part.transitions += nev
-        part.states.add(report.fp([name, depth, fallback]))
+        part.states.add(report.fp([name, depth, fallback, encoding]))
         if any(ch in name for ch in ' ";=->\\%') or not name.isascii():
-            part.nontrivial.add(report.fp([name, depth, fallback]))
+            part.nontrivial.add(report.fp([name, depth, fallback, encoding]))
         part.outcomes[report.fp(sorted(p["kind"] for p in problems))] += 1
         for p in problems[:1]:
-            sig = {"kind": p["kind"], "step": p["step"], "fallback": fallback, **classify(name),
+            sig = {"kind": p["kind"], "step": p["step"], "fallback": fallback, "encoding": encoding, **classify(name),
                    "list_parser": bool(fallback or p["step"] == "list-raw-LIST")}
             part.violation(sig, {"name": name, "depth": depth, "problem": p},
-                           replay={"name": name, "depth": depth, "fallback": fallback})
-    part.sample({"names": ns[:5], "depth": depth, "list_fallback": fallback}, limit=1)
+                           replay={"name": name, "depth": depth, "fallback": fallback, "encoding": encoding})
+    part.sample({"names": ns[:5], "depth": depth, "list_fallback": fallback, "encoding": encoding}, limit=1)
     return part
 
 
@@ -187,6 +192,19 @@ def build_items(tier):
         for fallback in (False, True):
             for i in range(0, len(ns), 12):
                 items.append((ns[i:i + 12], depth, fallback))
+    # the same through servers and clients configured with another encoding (names that encoding can represent)
+    for enc in ("latin-1", "cp1251"):
+        pool = [n for n in names(1) + NATIVE[enc]]
+        ok = []
+        for n in pool:
+            try:
+                n.encode(enc)
+                ok.append(n)
+            except UnicodeEncodeError:
+                pass
+        for fallback in (False, True):
+            for i in range(0, len(ok), 12):
+                items.append((ok[i:i + 12], 1, fallback, enc))
     return items
 
 
@@ -197,7 +215,8 @@ def run(tier, seed, t0):
         items = items[k:] + items[:k]
     part = report.merge_all(report.pmap(work, items))
     bounds = {"alphabet": SIGMA, "max_len": 2 if tier == "quick" else 3, "fixed": FIXED, "depths": [1, 2],
-              "servers": ["MLSD/MLST", "LIST fallback (mlst/mlsd removed)"]}
+              "servers": ["MLSD/MLST", "LIST fallback (mlst/mlsd removed)"],
+              "encodings": ["utf-8 (all names)", "latin-1 and cp1251 (single characters, fixed list, native names)"]}
     return report.finish(
         PID, tier, seed, "model_checking", part, t0,
         rule="every name (no trailing whitespace, not '.'/'..') x depth x server flavour: one session through the real "
@@ -210,6 +229,6 @@ def run(tier, seed, t0):
 def replay(path):
     data = json.loads(open(path).read())
     rp = data["replay"]
-    problems, _ = scenario(rp["name"], rp["depth"], rp["fallback"])
+    problems, _ = scenario(rp["name"], rp["depth"], rp["fallback"], rp.get("encoding", "utf-8"))
     print(json.dumps(problems, indent=1, default=repr))
     return 1 if problems else 0
